@@ -1,0 +1,42 @@
+//go:build verif
+
+package couchbase
+
+// Contracts checked by /verif (govc). Comment-only: no executable code.
+// Couchbase heart-beat membership: numbering from the join-ordered list of live instances (C10).
+
+//@ iface EventBus.Bus.Publish
+//@ params recv topic args
+//@ modifies nothing
+
+//@ func (*cbMembership).isAlive
+//@ props C10
+//@ requires h != nil && h.membershipConfig != nil && logger.Log != nil
+//@ let now = dret("time.(Time).UnixNano", 0, 0)
+//@ check.window[C10] h.membershipConfig.HeartbeatInterval + h.membershipConfig.HeartbeatToleranceDuration <= 9223372036854775807 && h.membershipConfig.HeartbeatInterval + h.membershipConfig.HeartbeatToleranceDuration >= -9223372036854775808 && now - heartbeatTime <= 9223372036854775807 && now - heartbeatTime >= -9223372036854775808 ==> result == (now - heartbeatTime < h.membershipConfig.HeartbeatInterval + h.membershipConfig.HeartbeatToleranceDuration)
+//@ modifies calls("time.(Time).UnixNano")
+
+//@ func (*cbMembership).isClusterChanged
+//@ props C10
+//@ requires h != nil && (forall j int :: 0 <= j && j < len(h.lastActiveInstances) ==> h.lastActiveInstances[j].ID != nil) && (forall j int :: 0 <= j && j < len(currentActiveInstances) ==> currentActiveInstances[j].ID != nil)
+//@ let n = len(h.lastActiveInstances)
+//@ loop 1
+//@   invariant.same forall j int :: 0 <= j && j <= rangeindex ==> *h.lastActiveInstances[j].ID == *currentActiveInstances[j].ID
+//@   invariant.bound -1 <= rangeindex && rangeindex <= n - 1 && n == len(currentActiveInstances)
+//@ ensures.lengths[C10] n != len(currentActiveInstances) ==> result == true
+//@ ensures.same[C10] result == false ==> n == len(currentActiveInstances) && forall j int :: 0 <= j && j < n ==> *h.lastActiveInstances[j].ID == *currentActiveInstances[j].ID
+//@ ensures.differs[C10] result == true && n == len(currentActiveInstances) ==> exists j int :: 0 <= j && j < n && *h.lastActiveInstances[j].ID != *currentActiveInstances[j].ID
+//@ modifies nothing
+
+//@ func (*cbMembership).rebalance
+//@ props C10
+//@ requires h != nil && h.bus != nil && logger.Log != nil && len(instances) <= 9223372036854775806 && (forall j int :: 0 <= j && j < len(instances) ==> instances[j].ID != nil)
+//@ let self = str(h.id)
+//@ loop 1
+//@   invariant.notyet selfOrder == 0 && -1 <= rangeindex && rangeindex <= len(instances) - 1
+//@   invariant.before forall j int :: 0 <= j && j <= rangeindex ==> *instances[j].ID != self
+//@ panics.absent[C10] forall j int :: 0 <= j && j < len(instances) ==> *instances[j].ID != str(h.id)
+//@ ensures.remembered[C10] h.lastActiveInstances == instances
+//@ ensures.number[C10] forall j int :: 0 <= j && j < len(instances) && *instances[j].ID == self && (forall k int :: 0 <= k && k < j ==> *instances[k].ID != self) ==> (calls(EventBus.Bus.Publish) == 0 ==> old(h.info) != nil && old(h.info.MemberNumber) == j + 1 && old(h.info.TotalMembers) == len(instances))
+//@ ensures.announce_on_change[C10] calls(EventBus.Bus.Publish) <= 1 && (calls(EventBus.Bus.Publish) == 1 ==> arg(EventBus.Bus.Publish, 0, recv) == h.bus && arg(EventBus.Bus.Publish, 0, topic) == helpers.MembershipChangedBusEventName)
+//@ modifies h.lastActiveInstances, calls(EventBus.Bus.Publish)
